@@ -55,6 +55,19 @@ class AbsArr(object):
             return ip.Builtin('copy', lambda I, fr, a, k: AbsArr('copy(%s)#%d' % (self.name, next(_ctr)), self.dtype, self.shape, self.log, origin=('copy', self)))
         if name == '__array_priority__':
             return 0.0
+        if name == 'itemsize':
+            import numpy as _np
+            return int(_np.dtype(self.dtype.name).itemsize)
+        if name == 'strides':
+            # an arbitrary strided view: per axis any non-zero multiple of the item size, of either sign (reversed views are ordinary, writeable ndarrays)
+            if not hasattr(self, '_strides'):
+                import numpy as _np
+                isz = int(_np.dtype(self.dtype.name).itemsize)
+                ks = [S(z3.Int('%s.stride%d' % (self.name, i))) for i in range(len(self.shape))]
+                for k in ks:
+                    fr.st.assume(core.s_not(core.sc_eq(k, 0)))
+                self._strides = tuple(k * isz for k in ks)
+            return self._strides
         if name in ('space', 'tensor', 'data'):
             raise ip.PyRaise(I.make_exc('AttributeError', name))
         raise Unsupported('ndarray.%s on an abstract array' % name)
